@@ -14,7 +14,8 @@ Inductive sop :=
 | SGet (id : uri) (at_ : option Z) (scope : list Z) (merged : bool)
        (o_found : bool) (o_partials : list (Z * content)) (o_deleted : bool)
 | SRaw (fam : N) (o_keys : list (list N))
-| SRev (ds since limit : Z) (o_ents : list oent) (o_next : Z).   (* reverse change reader (iterator.Inverse) *)   (* raw Badger keys of one index family, in iteration order *)
+| SRev (ds since limit : Z) (o_ents : list oent) (o_next : Z)   (* reverse change reader (iterator.Inverse) *)
+| SGetM (id : uri) (scope : list Z) (o_refs : list (Z * rval)).  (* merged lookup over several datasets: the merged references *)   (* raw Badger keys of one index family, in iteration order *)
 
 Definition tcase := list sop.
 
@@ -66,6 +67,27 @@ Definition page_oents (pg : list (uri * option content)) : list oent :=
 
 Definition partial_eqb (a b : Z * content) : bool := Z.eqb (fst a) (fst b) && identical (snd a) (snd b).
 
+(** Store.mergeInto on references: a key present on both sides becomes the list "target's values ++ source's values" *)
+Fixpoint merge_refs_fuel (fuel : nat) (a b : list (Z * rval)) : list (Z * rval) :=
+  match fuel with
+  | O => a ++ b
+  | S fuel' =>
+    match a, b with
+    | [], _ => b
+    | _, [] => a
+    | (k1, v1) :: a', (k2, v2) :: b' =>
+      if k1 <? k2 then (k1, v1) :: merge_refs_fuel fuel' a' b
+      else if k2 <? k1 then (k2, v2) :: merge_refs_fuel fuel' a b'
+      else (k1, {| rv_arr := true; rv_tgts := rv_tgts v1 ++ rv_tgts v2 |}) :: merge_refs_fuel fuel' a' b'
+    end
+  end.
+Definition merge_refs (a b : list (Z * rval)) : list (Z * rval) := merge_refs_fuel (length a + length b) a b.
+Definition merged_refs (parts : list (Z * content)) : list (Z * rval) :=
+  match parts with
+  | [] => []
+  | p :: ps => fold_left (fun acc q => merge_refs acc (c_refs (snd q))) ps (c_refs (snd p))
+  end.
+
 (** which kinds of operation a property compares *)
 Record proj := { p_writes : bool; p_changes : bool; p_entities : bool; p_get : bool; p_raw : bool }.
 Definition proj_c02 := {| p_writes := true; p_changes := true; p_entities := false; p_get := false; p_raw := false |}.
@@ -107,6 +129,10 @@ Definition agree_op (db : bool) (pr : proj) (st : store) (o : sop) : bool :=
     negb (p_changes pr) ||
     (let '(out, next) := changes_rev (get_ds st ds) since limit in
      oents_eqb (map entry_oent out) o_ents && Z.eqb next o_next)
+  | SGetM id scope o_refs =>
+    negb (p_get pr) ||
+    (let '(parts, _) := entity_at st id (now_of st) scope in
+     kvlist_eqb rval_eqb (merged_refs parts) o_refs)
   | SRaw fam o_keys =>
     (* the real keys decode with the modelled layout, re-encode to themselves and come out of Badger in
        the order of their FIELD values (Proofs/KeysProofs.enc_order says that is the bytewise order) *)
@@ -178,6 +204,13 @@ Definition spec_op_ok (pr : proj) (s : sstate) (o : sop) : bool :=
       else match cur with [] => true | _ => false end
     end
   | SRaw _ _ => true
+  | SGetM id scope o_refs =>
+    negb (p_get pr) ||
+    (let cur := flat_map (fun (p : Z * feed) =>
+                   if in_scope scope (fst p) then
+                     match current_of (snd p) id with Some c => [(fst p, c)] | None => [] end
+                   else []) s in
+     kvlist_eqb rval_eqb (merged_refs (filter (fun p => negb (c_del (snd p))) cur)) o_refs)
   | SRev ds since limit o_ents o_next =>
     negb (p_changes pr) ||
     (let '(out, next) := spec_changes_rev (sget s ds) since limit in
